@@ -233,7 +233,7 @@ func genRandomDist(r *vh.Rng, lease bool, n, maxOps int, guarded bool, origin st
 				c.Ops = append(c.Ops, Op{K: "rputf", H: h, Idx: rr.Intn(8), Ep: uint64(rr.Intn(4))})
 			case x < 90:
 				c.Ops = append(c.Ops, Op{K: "rputown", H: h, Ep: uint64(2 + rr.Intn(3))})
-			case x < 92:
+			case x < 92 || guarded:
 				c.Ops = append(c.Ops, Op{K: "rdel", H: h})
 			default:
 				if !guarded {
@@ -427,6 +427,43 @@ func genStoreRT(r *vh.Rng, n, maxOps int, canonical bool) []Case {
 	return out
 }
 
+// every id family x pool id x mode: allocate everybody, then remote deletes / puts / echoes addressed by key,
+// with Get of everybody observed after each event, and a restart at the end
+func genIDs(r *vh.Rng) []Case {
+	var out []Case
+	for _, fam := range idFamilies {
+		for _, pool := range []string{"p", "pool/1", "p/"} {
+			for _, lease := range []bool{false, true} {
+				g := sessionGeos[1]
+				if lease {
+					g = leaseGeos[1]
+				}
+				univ := 4 + r.Intn(3)
+				c := distCase(g, lease, univ, "ids")
+				c.Pool, c.Names, c.Sync = pool, fam[:univ], r.Bool()
+				for h := 0; h < univ; h++ {
+					c.Ops = append(c.Ops, Op{K: "alloc", H: h})
+				}
+				for _, h := range randPerm(r, univ) {
+					c.Ops = append(c.Ops, Op{K: "rdel", H: h})
+					if r.Bool() {
+						c.Ops = append(c.Ops, Op{K: "rputf", H: h, Idx: r.Intn(4), Ep: 2})
+					}
+					if r.Chance(1, 3) {
+						c.Ops = append(c.Ops, Op{K: "alloc", H: h})
+					}
+				}
+				if !lease {
+					c.Ops = append(c.Ops, Op{K: "restart", Ord: randPerm(r, univ)})
+				}
+				c.Ops = append(c.Ops, Op{K: "stats"})
+				out = append(out, c)
+			}
+		}
+	}
+	return out
+}
+
 func generate(r *vh.Rng, thorough bool) []stream {
 	exDepth, nr, maxOps := 3, 90, 14
 	if thorough {
@@ -440,6 +477,7 @@ func generate(r *vh.Rng, thorough bool) []stream {
 		exh = append(exh, genExhaustive(false, sessionGeos[0], 3, 3, "exhaustive", true)...)
 	}
 	out = append(out, stream{"dist_session_exh", "dist", exh, ex})
+	out = append(out, stream{"dist_ids", "dist", genIDs(r.Fork()), nil})
 	out = append(out, stream{"dist_session_guarded", "dist", genRandomDist(r.Fork(), false, nr, maxOps, true, "guarded"), nil})
 	out = append(out, stream{"dist_lease_guarded", "dist", append(genRandomDist(r.Fork(), true, nr/2, maxOps, true, "guarded"), genLeaseOrdered(r.Fork(), nr/2)...), nil})
 	out = append(out, stream{"dist_session_defect", "dist", genRandomDist(r.Fork(), false, nr/2, maxOps, false, "defect"), nil})
